@@ -9,7 +9,8 @@ Open Scope Z_scope.
 
 Definition past_inv (t : thread) : bool :=
   match t_pc t with
-  | RfLoad | RfCas | CClose | Done | Crash | LCas | LLoad | LLook1 | LLook2 | LCellLoad | LCellCas => true
+  | RfLoad | RfCas | CClose | Done | Crash | LCas | LLoad | LLook1 | LLook2 | LCellLoad | LCellCas
+  | GRfLoad | GClose => true
   | _ => false
   end.
 
@@ -35,7 +36,8 @@ Definition ok_change (s : shared) (LO : Z) (s' : shared) (LO' : Z) : Prop :=
   (s_cur s' = s_cur s \/ s_cur s' = None \/ s_cur s' = Some (length (s_maps s))) /\
   ((s_ptr s' = s_ptr s /\ LO <= LO' /\ (w_have (s_word s') = true -> w_have (s_word s) = true \/ 1 <= LO'))
    \/ s_ptr s' = None
-   \/ (s_ptr s' = s_cur s /\ s_cur s' = s_cur s)).
+   \/ (s_ptr s' = s_cur s /\ s_cur s' = s_cur s)
+   \/ w_have (s_word s') = false).
 
 Lemma chg_ok_preserved s LO s' LO' t t' :
   t_prev t' = t_prev t -> (past_inv t' = true -> past_inv t = true) ->
@@ -44,12 +46,13 @@ Proof.
   intros Epv Epi (Hm & Hc & Hp) H. unfold chg_ok in *. rewrite Epv. destruct (t_prev t) as [g|]; [|exact I].
   destruct H as (Hg & Hcur & Hq). split; [lia|]. split.
   - destruct Hc as [-> | [-> | ->]]; [exact Hcur | discriminate | intro E; injection E as E; lia].
-  - intros Hpi Hptr. apply Epi in Hpi. destruct Hp as [(Ep & Hlo & Hh) | [Ep | (Ep & Ec)]].
+  - intros Hpi Hptr. apply Epi in Hpi. destruct Hp as [(Ep & Hlo & Hh) | [Ep | [(Ep & Ec) | Hf0]]].
     + rewrite Ep in Hptr. destruct (Hq Hpi Hptr) as [Hf | Hl]; [|right; lia].
       destruct (w_have (s_word s')) eqn:E; [|left; reflexivity].
       destruct (Hh eq_refl) as [X | X]; [congruence | right; exact X].
     + congruence.
     + rewrite Ep in Hptr. contradiction.
+    + left. exact Hf0.
 Qed.
 
 Lemma same_change s LO : ok_change s LO s LO.
@@ -80,7 +83,7 @@ Proof. intros Hw Hr. pose proof (fields_of _ Hw) as F. apply (fields_have _ _ _ 
 
 Ltac mf Hpc :=
   unfold look, past_inv in *;
-  cbn [t_pc t_prev t_amt t_st t_kind t_old t_tgt t_after with_pc with_st with_old with_amt to_close after_release goto_nops] in *;
+  cbn [t_pc t_prev t_amt t_st t_kind t_old t_tgt t_after with_pc with_st with_st2 with_old with_amt to_close after_release goto_nops] in *;
   try rewrite Hpc in *; cbn iota beta in *.
 
 Definition step_facts (s : shared) (u : thread) (s' : shared) (u' : thread) (rest : Z) : Prop :=
@@ -132,9 +135,11 @@ Lemma step_change np s u s' u' rest :
   (t_pc u = RCas -> 1 <= w_readers (s_word s)) ->
   (forall g, s_cur s = Some g -> (g < length (s_maps s))%nat) ->
   (match t_pc u with CStore | CIdle | CPre | AIdle | ALoad | ACas | AXCas | AXLoad | ACellLoad | ACellCas | RCas | RLoad => t_prev u = None | _ => True end) ->
+  (t_pc u = GRfLoad -> 0 < w_readers (s_word s)) ->
+  (t_pc u = GClose -> w_have (s_word s) = false) ->
   step_facts s u s' u' rest.
 Proof.
-  intros H Hw Hrest Hamt Hrd Hcur Hpn. unfold step_thread in H.
+  intros H Hw Hrest Hamt Hrd Hcur Hpn Hgr Hgc. unfold step_thread in H.
   destruct (t_pc u) eqn:Hpc.
   - (* AIdle *) injection H as <- <-. fs Hpc.
   - (* ALoad *) injection H as <- <-. fs Hpc.
@@ -198,9 +203,48 @@ Proof.
       unfold ok_change. cbn [set_ptr s_ptr s_cur s_maps s_closed s_word].
       split; [lia|]; split; [left; reflexivity|]; right; left; reflexivity.
   - (* LLook2 *)
-    injection H as <- <-. apply facts_gen; mf Hpc; try reflexivity; try (intros; discriminate).
-    unfold ok_change. cbn [set_ptr s_ptr s_cur s_maps s_closed s_word].
-    split; [lia|]; split; [left; reflexivity|]; right; right; split; reflexivity.
+    assert (Plain : (s', u') = (set_ptr s (s_cur s), with_pc u LCas) -> step_facts s u s' u' rest).
+    { intros X. injection X as -> ->. apply facts_gen; mf Hpc; try reflexivity; try (intros; discriminate).
+      unfold ok_change. cbn [set_ptr s_ptr s_cur s_maps s_closed s_word].
+      split; [lia|]; split; [left; reflexivity|]; right; right; left; split; reflexivity. }
+    destruct (s_cur s) as [g0|] eqn:Ec; [|apply Plain; rewrite <- H; reflexivity].
+    destruct (t_prev u) eqn:Epv; [apply Plain; rewrite <- H; reflexivity|].
+    destruct (s_full s) eqn:Efu; [|apply Plain; rewrite <- H; reflexivity].
+    injection H as <- <-.
+    unfold step_facts, ok_change. mf Hpc. cbn [s_ptr s_cur s_maps s_closed s_word].
+    split; [split; [rewrite app_length; lia|]; split; [right; right; reflexivity|]; left; split; [reflexivity|]; split; [lia|]; intros X; left; exact X|].
+    split; [intros X; contradiction|].
+    split; [intros _; right; split; [rewrite Ec; reflexivity|]; split; [reflexivity|]; intros g Eg; rewrite Ec in Eg; injection Eg as <-; specialize (Hcur g0 eq_refl); intro X; injection X as X; lia|].
+    left; reflexivity.
+  - (* GIvLoad *)
+    destruct (w_have (s_word s)) eqn:Eh; injection H as <- <-.
+    + fs Hpc.
+    + apply facts_gen; mf Hpc; try reflexivity; try (intros; discriminate); try (intros; assumption).
+      apply same_change.
+  - (* GIvCas *)
+    destruct (Z.eqb_spec (s_word s) (t_old u)) as [Ew|Ne]; injection H as <- <-.
+    + rewrite <- Ew. apply facts_gen; mf Hpc; try reflexivity; try (intros; discriminate).
+      * unfold ok_change. cbn [set_word s_ptr s_cur s_maps s_closed s_word]. rewrite (have_clear_have _ Hw).
+        split; [lia|]; split; [left; reflexivity|]; left; split; [reflexivity|]; split; [lia|]; intros X; discriminate.
+      * intros _ _ _. cbn [set_word s_word]. apply (have_clear_have _ Hw).
+    + fs Hpc.
+  - (* GRfLoad *)
+    destruct (w_have (s_word s) || (0 <? w_readers (s_word s)) || (w_extra (s_word s) =? 0)) eqn:Cd; injection H as <- <-.
+    + fs Hpc.
+    + exfalso. apply orb_false_iff in Cd as [Cd _]. apply orb_false_iff in Cd as [_ Cd].
+      apply Z.ltb_ge in Cd. specialize (Hgr eq_refl). lia.
+  - (* GClose *)
+    specialize (Hgc eq_refl).
+    destruct (t_prev u) as [g|] eqn:Epv; injection H as <- <-.
+    + unfold step_facts, ok_change. mf Hpc. cbn [s_ptr s_cur s_maps s_closed s_word].
+      split; [split; [lia|]; split; [left; reflexivity|]; right; right; right; exact Hgc|].
+      split; [intros _; split; [reflexivity|]; split; [auto|intros X; discriminate]|].
+      split; [intros X; rewrite Epv in X; discriminate|].
+      right. exists g. auto.
+    + unfold step_facts, ok_change. mf Hpc. cbn [set_ptr s_ptr s_cur s_maps s_closed s_word].
+      split; [split; [lia|]; split; [left; reflexivity|]; right; right; right; exact Hgc|].
+      split; [intros X; rewrite Epv in X; contradiction|].
+      split; [intros _; left; exact Epv|]. left; reflexivity.
   - (* LCellLoad *)
     destruct (s_ptr s); injection H as <- <-.
     + fw Hpc. auto.
@@ -312,9 +356,9 @@ Proof.
   destruct st as [s ts]. cbn [snd]. intros I (FC & CL) PN. unfold step.
   destruct (nth_error ts i) as [u|] eqn:Hn; [|split; [split; assumption|exact PN]].
   destruct (step_thread np s u) as [s' u'] eqn:Hs. cbn [snd].
-  destruct I as (r & h & e & F & C & TL & W & _).
+  destruct I as (r & h & e & F & C & TL & W & _ & _ & SO & _).
   pose proof (fields_range _ _ _ _ F) as Hw.
-  pose proof (sum_others_bound _ _ _ Hn) as (B1 & B2 & B3 & B4 & B5 & B6 & B7 & B8).
+  pose proof (sum_others_bound _ _ _ Hn) as (B1 & B2 & B3 & B4 & B5 & B6 & B7 & B8 & B9).
   pose proof (nth_error_Forall _ _ _ _ TL Hn) as [Hamt _].
   pose proof (nth_error_Forall _ _ _ _ PN Hn) as Pu.
   assert (Hrd : t_pc u = RCas -> 1 <= w_readers (s_word s)).
@@ -322,7 +366,15 @@ Proof.
     assert (rd u = 1) by (unfold rd; rewrite Hpc; reflexivity).
     unfold cnt_ok in C. rewrite LOCKED_v in *. lia. }
   assert (Hcur : forall g, s_cur s = Some g -> (g < length (s_maps s))%nat) by apply W.
-  pose proof (step_change np s u s' u' (sumf look ts - look u) Hs Hw ltac:(lia) Hamt Hrd Hcur Pu) as (OC & S2 & S3 & S4).
+  assert (Hgr : t_pc u = GRfLoad -> 0 < w_readers (s_word s)).
+  { intros Hpc. rewrite (fields_readers _ _ _ _ F).
+    assert (lk u = 1) by (unfold lk; rewrite Hpc; reflexivity).
+    unfold cnt_ok in C. rewrite LOCKED_v in *. lia. }
+  assert (Hgc : t_pc u = GClose -> w_have (s_word s) = false).
+  { intros Hpc. rewrite (fields_have _ _ _ _ F).
+    assert (gp u = 1) by (unfold gp; rewrite Hpc; reflexivity).
+    destruct SO as (_ & _ & _ & _ & S5). apply S5. lia. }
+  pose proof (step_change np s u s' u' (sumf look ts - look u) Hs Hw ltac:(lia) Hamt Hrd Hcur Pu Hgr Hgc) as (OC & S2 & S3 & S4).
   replace (look u + (sumf look ts - look u)) with (sumf look ts) in OC by lia.
   pose proof (sumf_upd look _ _ _ u' Hn) as Ulo.
   replace (look u' + (sumf look ts - look u)) with (sumf look (upd ts i u')) in OC by lia.
@@ -424,7 +476,7 @@ Proof.
   destruct (run np sched (s0, ts0)) as [s ts].
   intros Hn Hs Hpcs g Hp Hcl.
   destruct I as (r & h & e & F & C & TL & W & _).
-  pose proof (sum_others_bound _ _ _ Hn) as (B1 & B2 & B3 & B4 & B5 & B6 & B7 & B8).
+  pose proof (sum_others_bound _ _ _ Hn) as (B1 & B2 & B3 & B4 & B5 & B6 & B7 & B8 & B9).
   pose proof (fields_have _ _ _ _ F) as Eh. pose proof (fields_locked _ _ _ _ F) as El.
   pose proof (fields_readers _ _ _ _ F) as Er.
   specialize (CP g Hcl Hp).
